@@ -165,22 +165,26 @@ func VerifHarness_Modules() {
 }
 
 // VerifHarness_ModuleChains: graphs of depth two and more. Scenarios (selector):
-//   0 re-export: a defines pub items, b imports them without declaring anything pub, main imports them from b
-//     (broken: b does not export them) or from a directly (legal)
-//   1 a cycle that does not contain the entry module (main -> a -> b -> a), and a module importing itself
-//   2 diamond (main -> a, b; a -> c; b -> c): c's global is initialised once and shared by both paths
-//   3 chain with the same private names at every level: each function runs against its own module
+//
+//	0 re-export: a defines pub items, b imports them without declaring anything pub, main imports them from b
+//	  (broken: b does not export them) or from a directly (legal)
+//	1 a cycle that does not contain the entry module (main -> a -> b -> a), and a module importing itself
+//	2 diamond (main -> a, b; a -> c; b -> c): c's global is initialised once and shared by both paths
+//	3 chain with the same private names at every level: each function runs against its own module
 func VerifHarness_ModuleChains() {
-	sc := errors.VerifNdIntRange("scenario", 0, 3)
-	errors.VerifTag("scenario", []string{"re-export", "inner-cycle", "diamond", "private-names"}[sc])
+	sc := errors.VerifParam("only", -1) // a pinned scenario (used with map-order exploration)
+	if sc < 0 {
+		sc = errors.VerifNdIntRange("scenario", 0, 4)
+	}
+	errors.VerifTag("scenario", []string{"re-export", "inner-cycle", "diamond", "private-names", "same-named-function-elsewhere"}[sc])
 	var modules map[string]string
 	var main, want string
 	wantErr := false
 	switch sc {
 	case 0:
-		item := errors.VerifNdIntRange("item", 0, 2)  // function, global, type
-		form := errors.VerifNdIntRange("form", 0, 1)  // single import, list import
-		via := errors.VerifNdIntRange("via", 0, 1)    // 0: from b (re-export), 1: from a (direct)
+		item := errors.VerifNdIntRange("item", 0, 2)   // function, global, type
+		form := errors.VerifNdIntRange("form", 0, 1)   // single import, list import
+		via := errors.VerifNdIntRange("via", 0, 1)     // 0: from b (re-export), 1: from a (direct)
 		bUses := errors.VerifNdIntRange("bUses", 0, 1) // whether b also imports the item (so it is in b's scope)
 		errors.VerifTag("case", fmt.Sprintf("item=%d form=%d via=%d bUses=%d", item, form, via, bUses))
 		a := "pub fn shared() -> int { return 7; }\npub let LIMIT = 9;\npub type Id = int;\nfn main() { }\n"
@@ -232,6 +236,13 @@ func VerifHarness_ModuleChains() {
 		main = "import fa from a;\nlet t = 100;\nfn k() -> int { return t + 1; }\nfn main() {\n  println(k(), fa());\n}\n"
 		modules = map[string]string{"a": a, "c": c, "main": main}
 		want = "101 202303\n"
+	case 4:
+		// main imports f from a; b (imported for g only) defines its own, unrelated f
+		a := "pub fn f() -> int { return 1; }\nfn main() { }\n"
+		b := "pub fn f() -> int { return 2; }\npub fn g() -> int { return f() * 10; }\nfn main() { }\n"
+		main = "import f from a;\nimport g from b;\nfn main() {\n  println(f(), g());\n}\n"
+		modules = map[string]string{"a": a, "b": b, "main": main}
+		want = "1 20\n"
 	}
 	var an verifAnalysis
 	panicked, msg := errors.VerifPanics(func() { an = verifAnalyze(main, modules, nil, true) })
